@@ -147,13 +147,14 @@ func rlOut(o *outcome) string {
 
 // rlPacket: a plain A query with the scripted cookie: "-" none, "<cid>:<n|g|b>"
 // = client cookie number cid with no / the good / a bad server half.
-func rlPacket(ck, addr string) []byte {
+func rlPacket(ck, addr string, ver uint8) []byte {
 	m := new(dns.Msg)
 	m.SetQuestion("rl.example.test.", dns.TypeA)
 	m.Id = 7
 	o := new(dns.OPT)
 	o.Hdr.Name, o.Hdr.Rrtype = ".", dns.TypeOPT
 	o.SetUDPSize(1232)
+	o.SetVersion(ver)
 	if ck != "-" {
 		cid, half, _ := strings.Cut(ck, ":")
 		client := fmt.Sprintf("c00500%02x00000000", vlib.Atoi(cid))
@@ -192,7 +193,7 @@ func execRL(f []string) vlib.Res {
 		if a["lo"] == "1" {
 			addr = "127.0.0.1:5353"
 		}
-		pkt := rlPacket(a["ck"], addr)
+		pkt := rlPacket(a["ck"], addr, uint8(atoiD(a["ver"], 0)))
 		replay := a["replay"] == "1"
 		ow := runWire(rlWire, pkt, a["proto"], addr, replay)
 		ms := "-"
